@@ -308,6 +308,26 @@ def run(ctx):
                 ss.append(ss[0])
             lines.append("hist %s %s" % (fseq(p), fseqs(ss)))
     ctx.compare("random-planted", lines)
+    # sizes beyond the other streams: targets of length 21..24, 33..36 and 65..66 (short patterns, so that
+    # the brute-force oracle stays cheap), planted occurrences hugging both ends
+    lines = []
+    for n in ([21, 22, 24, 33, 36, 65] if ctx.tier == "quick" else [21, 22, 23, 24, 33, 34, 36, 40, 65, 66, 130]):
+        for _ in range(6):
+            k = rng.randrange(1, 4 if n <= 40 else 3)
+            p = rand_perm(rng, k)
+            s = planted(rng, p, n)
+            lines.append("occ %s %s" % (fseq(p), fseq(s)))
+            lines.append("count %s %s" % (fseq(p), fseq(s)))
+            q = rand_perm(rng, rng.randrange(2, 5))
+            lines.append("contains %s %s" % (fseq(s), fseqs([p, q])))
+            lines.append("avoids %s %s" % (fseq(s), fseqs([q])))
+            cp = tuple(rng.randrange(2) for _ in range(k))
+            cs = tuple(rng.randrange(2) for _ in range(n))
+            lines.append("occc %s %s %s %s" % (fseq(p), fseq(s), fseq(cp), fseq(cs)))
+        mono = tuple(range(n)) if n % 2 else tuple(range(n - 1, -1, -1))
+        lines.append("contains %s %s" % (fseq(mono), fseqs([(0, 1, 2), (2, 1, 0)])))
+        lines.append("lfc %s" % fseq(rand_perm(rng, n)))
+    ctx.compare("large-targets", lines)
     # interleaved lazy listings with one pattern object
     lines = ["lazy 0,1 0,1,2 1 2,0,1", "lazy 0,1 0,1,2 0 0,1", "lazy 1,0 2,1,0 2 1,0,2"]
     for _ in range(600 if ctx.tier == "quick" else 6000):
